@@ -102,3 +102,75 @@ Definition judge_rp (c : nat * nat * list (jop * list Z * Z) * list Z * list Z *
       end
   | None => 1
   end.
+
+(* ================================================================================================ two pools of one T
+   (Model/ResPoolMultiModel.v).  Resource x of pool p is printed by the harness as 32 * p + x; a handle's pool_ as 0 / 1 (-1: no object). *)
+From DV Require Import Model.ResPoolMultiModel.
+
+Inductive mjop :=
+| MJAcquire (p h : nat)
+| MJRelease (h : nat)
+| MJMoveCtor (d s : nat)
+| MJMoveAssign (d s : nat).
+
+Definition enc_mhandle (h : mhandle) : Z :=
+  match h with MDead => -2 | MLive _ None => -1 | MLive p (Some x) => 32 * Z.of_nat p + Z.of_nat x end.
+Definition enc_mpool (h : mhandle) : Z := match h with MDead => -1 | MLive p _ => Z.of_nat p end.
+
+(* the property on the implementation's snapshot: held ids distinct, each an existing resource, and for each pool
+   queued + held-of-that-pool = size (so no pool is short of a resource or holds a foreign one) *)
+Definition held_of_pool (p : Z) (snap : list Z) : list Z := filter (fun z => (0 <=? z) && (z / 32 =? p)) snap.
+Definition msnap_ok (sizes : list nat) (snap : list Z) (qsizes : list Z) : bool :=
+  let hs := held_ids snap in
+  zdistinct hs
+  && forallb (fun z => z mod 32 <? Z.of_nat (nth (Z.to_nat (z / 32)) sizes O)) hs
+  && (length qsizes =? length sizes)%nat
+  && forallb (fun pq => let '(p, q) := pq in q + Z.of_nat (length (held_of_pool (Z.of_nat p) snap)) =? Z.of_nat (nth p sizes O))
+             (combine (seq 0 (length sizes)) qsizes).
+
+Definition mmodel_op (s : mlstate) (o : mjop) (snap : list Z) : option mlstate :=
+  match o with
+  | MJAcquire p h =>
+      match nth_error snap h, nth_error (m_qs s) p with
+      | Some z, Some q => if z <? 0 then None else
+                          match index_of (Z.to_nat (z - 32 * Z.of_nat p)) q with
+                          | Some k => mlstep s (MAcquire p h k)
+                          | None => None
+                          end
+      | _, _ => None
+      end
+  | MJRelease h => mlstep s (MRelease h)
+  | MJMoveCtor d s' => mlstep s (MMoveCtor d s')
+  | MJMoveAssign d s' => mlstep s (MMoveAssign d s')
+  end.
+
+Fixpoint mwalk (sizes : list nat) (ms : option mlstate) (ops : list (mjop * list Z * list Z * list Z)) (agree : bool) (k : Z)
+  : Z * option mlstate * bool :=
+  match ops with
+  | [] => (0, ms, agree)
+  | (o, snap, pools, qsizes) :: r =>
+      if negb (msnap_ok sizes snap qsizes) then (2 + 10 * k, None, false) else
+      match ms with
+      | Some s =>
+          match mmodel_op s o snap with
+          | Some s' =>
+              let same := zlist_eqb (map enc_mhandle (m_handles s')) snap && zlist_eqb (map enc_mpool (m_handles s')) pools
+                          && zlist_eqb (map (fun q => Z.of_nat (length q)) (m_qs s')) qsizes in
+              if same then mwalk sizes (Some s') r agree (k + 1) else mwalk sizes None r false (k + 1)
+          | None => mwalk sizes None r false (k + 1)
+          end
+      | None => mwalk sizes None r false (k + 1)
+      end
+  end.
+
+(* (sizes, nhandles, ops with observations, constructed / destroyed counts of all resources (pool 0 first), hang, completed):
+   after the last op the harness releases every handle and destroys both pools; each resource must have been constructed and destroyed once
+   (the model proves this: C25_dtor_destroys_each_once on each projection) *)
+Definition judge_rq (c : list nat * nat * list (mjop * list Z * list Z * list Z) * list Z * list Z * bool * bool) : Z :=
+  let '(sizes, nh, ops, ctor, dtor, hang, completed) := c in
+  let '(v, ms, agree) := mwalk sizes (Some (mlinit sizes nh)) ops true 0 in
+  if negb (v =? 0) then v else
+  if hang || negb completed then 2 + 10 * Z.of_nat (length ops) else
+  let total := fold_right Nat.add O sizes in
+  if negb (all_ones ctor total && all_ones dtor total) then 2 + 10 * Z.of_nat (length ops) else
+  match ms with Some _ => if agree then 0 else 1 | None => 1 end.
